@@ -890,7 +890,7 @@ func bcScenario(cr *childRun, sid int) {
 	s.bcR.SetBlockExecuter(s.executer)
 	evsw := types.NewEventSwitch()
 	evsw.Start()
-	defer evsw.Stop()
+	defer func() { go evsw.Stop() }()
 	s.bcR.SetEventSwitch(evsw)
 	types.AddListenerForEvent(evsw, "c08", types.EventStringSwitchToConsensus(), func(types.TMEventData) { atomic.StoreInt32(&s.switched, 1) })
 	s.node.sw.AddReactor("BLOCKCHAIN", s.bcR)
@@ -1013,7 +1013,7 @@ func bcFamily() *family {
 		children: 10,
 		total:    func() int { return lib.Pick(len(bcMutations())*4+30, len(bcMutations())*6+3000) },
 		run:      bcScenario,
-		watchdog: func(n int) time.Duration { return time.Duration(120+n*15) * time.Second },
+		watchdog: func(n int) time.Duration { return time.Duration(120+n*10) * time.Second },
 		crashKey: func(site, routine string) string {
 			if strings.Contains(routine, "poolRoutine") {
 				return "blocksync-panic:" + site
